@@ -1,4 +1,5 @@
-import Zstd.Proofs.FrameDecoderConcat
+import Zstd.Proofs.FrameDecoderStandIn
+import Zstd.Proofs.FrameFaithful
 /-
 C10 — exact frame boundaries: consumption, multi-frame decoding, truncation detection.
 
@@ -6,8 +7,11 @@ Property theorems only; helper lemmas in `Zstd/Proofs/FrameDecoder*.lean`.  The 
 bytes not yet read (`impl Read for &[u8]`); `s.take k` is the source truncated after `k` bytes.  All
 statements hold for ALL states, sources, strategies, cut points (no bound).
 -/
+set_option linter.unusedSectionVars false
 namespace Zstd.Props.C10
 open Zstd Zstd.Model
+
+variable {σ : Type} [BlockDec σ] [BlockContract σ]
 
 /-! ### exact-size reads -/
 
@@ -28,7 +32,7 @@ theorem readExact_take (n k : Nat) (s : Src) :
 
 /-- a successful block consumed exactly `3 + content_size` bytes from the front; the rest is untouched;
 `bytes_read_counter` and `block_counter` say so -/
-theorem block_consumed_exact (st st' : FState) (s s1 : Src) (bh : BHeader)
+theorem block_consumed_exact (st st' : FState σ) (s s1 : Src) (bh : BHeader)
     (h : decodeOneBlock st s = (st', .ok (bh, s1))) :
     3 + bh.contentSize ≤ s.length ∧ s1 = s.drop (3 + bh.contentSize) ∧
     st'.bytesRead = st.bytesRead + (3 + bh.contentSize) ∧ st'.blockCounter = st.blockCounter + 1 := by
@@ -38,7 +42,7 @@ theorem block_consumed_exact (st st' : FState) (s s1 : Src) (bh : BHeader)
 /-- `decodeOneBlock_prefix`: on `s.take k`, a block that fits entirely in the first `k` bytes is decoded
 exactly as on `s`, the rest of the source being truncated; a block cut anywhere fails with
 `UnexpectedEof` at the header (nothing counted) or at the body (3 bytes counted), with nothing decoded -/
-theorem decodeOneBlock_prefix (st st' : FState) (s s1 : Src) (bh : BHeader) (k : Nat)
+theorem decodeOneBlock_prefix (st st' : FState σ) (s s1 : Src) (bh : BHeader) (k : Nat)
     (h : decodeOneBlock st s = (st', .ok (bh, s1))) :
     decodeOneBlock st (s.take k) =
       if 3 + bh.contentSize ≤ k then (st', .ok (bh, s1.take (k - (3 + bh.contentSize))))
@@ -52,7 +56,7 @@ theorem decodeOneBlock_prefix (st st' : FState) (s s1 : Src) (bh : BHeader) (k :
 
 /-- `consumed_exact`: `decode_blocks` hands back the source minus exactly the bytes it counted — a
 suffix of what it was given; following data is untouched -/
-theorem consumed_exact (d d' : Decoder) (s rest : Src) (strat : Strategy) (fin : Bool)
+theorem consumed_exact (d d' : Decoder σ) (s rest : Src) (strat : Strategy) (fin : Bool)
     (h : d.decodeBlocks s strat = (d', .ok (rest, fin))) :
     ∃ n, rest = s.drop n ∧ n ≤ s.length ∧ d'.bytesRead = d.bytesRead + n ∧ n = s.length - rest.length := by
   obtain ⟨h3, n, hl, hn, hb⟩ := Decoder.decodeBlocks_ok_consumes d d' s rest strat fin h
@@ -61,7 +65,7 @@ theorem consumed_exact (d d' : Decoder) (s rest : Src) (strat : Strategy) (fin :
 /-- … from the frame header on: after `reset` on `s` and `decode_blocks` to the end of the frame,
 `bytes_read_from_source()` is the length of the frame (header through optional checksum) and the
 source left over is `s` minus exactly that many bytes -/
-theorem frame_consumed_exact (d d0 d' : Decoder) (s s1 rest : Src) (strat : Strategy) (fin : Bool)
+theorem frame_consumed_exact (d d0 d' : Decoder σ) (s s1 rest : Src) (strat : Strategy) (fin : Bool)
     (hr : d.reset s = (d0, .ok s1)) (h : d0.decodeBlocks s1 strat = (d', .ok (rest, fin))) :
     rest = s.drop d'.bytesRead ∧ d'.bytesRead ≤ s.length := by
   rcases Decoder.reset_cases d s with ⟨e, he⟩ | ⟨st, o, he, hrc⟩
@@ -88,7 +92,7 @@ the decoder does NOT report the frame finished, at most `k` bytes are counted, a
 that point is a prefix of what the full run buffers (so everything delivered before the error is a
 prefix of the true content).  Precondition: the frame's last block was not in yet (the documented
 loop only calls `decode_blocks` while `is_finished()` is false). -/
-theorem decodeBlocks_prefix (d d' : Decoder) (st : FState) (s rest : Src) (strat : Strategy)
+theorem decodeBlocks_prefix (d d' : Decoder σ) (st : FState σ) (s rest : Src) (strat : Strategy)
     (hst : d.state = some st) (hnf : st.finished = false) (hcs : st.checksum = none)
     (h : d.decodeBlocks s strat = (d', .ok (rest, true))) (k : Nat) (hk : k < s.length - rest.length) :
     ∃ d'' e, d.decodeBlocks (s.take k) strat = (d'', .err e) ∧
@@ -117,7 +121,7 @@ theorem decodeBlocks_prefix (d d' : Decoder) (st : FState) (s rest : Src) (strat
       · simpa [Decoder.bytesRead, hst] using h7
 
 /-- a fresh `reset` establishes the precondition of `decodeBlocks_prefix` -/
-theorem reset_establishes_unfinished (d d0 : Decoder) (s s1 : Src) (hr : d.reset s = (d0, .ok s1)) :
+theorem reset_establishes_unfinished (d d0 : Decoder σ) (s s1 : Src) (hr : d.reset s = (d0, .ok s1)) :
     ∃ st, d0.state = some st ∧ st.finished = false ∧ st.checksum = none := by
   rcases Decoder.reset_cases d s with ⟨e, he⟩ | ⟨st, o, he, hrc⟩
   · rw [he] at hr; cases hr
@@ -134,8 +138,9 @@ error at a reader site (block header, block body or checksum) — never `Ok`, ne
 with at most the bytes before the cut counted, and everything buffered at that point (hence everything
 a caller can have been handed) a prefix of the frame's true content `r.content`.  (Cuts inside the
 frame header make `reset` itself fail: `header_cut_errors`.) -/
-theorem valid_frame_prefix_errors (d : Decoder) (f : List Nat) (hb : ∀ x ∈ f, x < 256) (r : Spec.FrameResult)
-    (hs : Spec.decodeFrame f (d.dicts.map Dict.toSpec) = some r) (hlim : r.header.window ≤ d.maxWindow)
+theorem valid_frame_prefix_errors [RefinesSpec σ] (d : Decoder σ) (sdicts : List Spec.Dict)
+    (hdc : DictsCoupled d.dicts sdicts) (f : List Nat) (hb : ∀ x ∈ f, x < 256) (r : Spec.FrameResult)
+    (hs : Spec.decodeFrame f sdicts = some r) (hlim : r.header.window ≤ d.maxWindow)
     (k : Nat) (hk : k < r.consumed) :
     ∃ d0 rest, d.reset f = (d0, .ok rest) ∧
       (d0.bytesRead ≤ k →
@@ -143,7 +148,7 @@ theorem valid_frame_prefix_errors (d : Decoder) (f : List Nat) (hb : ∀ x ∈ f
         ∃ d'' e, d0.decodeBlocks (rest.take (k - d0.bytesRead)) .all = (d'', .err e) ∧
           (e = .blockHeaderRead ∨ e = .blockBodyRead ∨ e = .checksumRead) ∧ d''.isFinished = false ∧
           d''.bytesRead ≤ k ∧ ∃ tail, r.content = (d''.content ++ tail).toList) := by
-  obtain ⟨d0, d1, rest, st1, hres, hdb, hst1, hcont, hfin, hbr1, hck1, hh1, hcl⟩ := decodeFrame_refines d f hb r hs hlim
+  obtain ⟨d0, d1, rest, st1, hres, hdb, hst1, hcont, hfin, hbr1, hck1, hh1, hcl⟩ := decodeFrame_refines d sdicts hdc f hb r hs hlim
   refine ⟨d0, rest, hres, fun hk0 => ⟨Decoder.reset_take_fits d d0 f rest k hres hk0, ?_⟩⟩
   obtain ⟨st0, hst0, hnf, hcs⟩ := reset_establishes_unfinished d d0 f rest hres
   -- where the source stands after the header
@@ -169,7 +174,7 @@ theorem valid_frame_prefix_errors (d : Decoder) (f : List Nat) (hb : ∀ x ∈ f
 
 
 /-- `header_cut_errors`: a cut inside the frame header makes `reset` fail (never `Ok`) -/
-theorem header_cut_errors (d d0 : Decoder) (f rest : Src) (k : Nat) (h : d.reset f = (d0, .ok rest))
+theorem header_cut_errors (d d0 : Decoder σ) (f rest : Src) (k : Nat) (h : d.reset f = (d0, .ok rest))
     (hk : k < d0.bytesRead) : ∀ rest', (d.reset (f.take k)).2 ≠ .ok rest' := by
   intro rest' hok
   rcases Decoder.reset_cases d f with ⟨e, he⟩ | ⟨st, o, he, hrc⟩
@@ -195,21 +200,21 @@ theorem header_cut_errors (d d0 : Decoder) (f rest : Src) (k : Nat) (h : d.reset
 /-! ### multi-frame decoding -/
 
 /-- `decode_all` never writes more than `output.len()` bytes -/
-theorem decode_all_within_target (d d' : Decoder) (s : Src) (room : Nat) (out : Array Nat)
+theorem decode_all_within_target (d d' : Decoder σ) (s : Src) (room : Nat) (out : Array Nat)
     (h : d.decodeAll s room = (d', .ok out)) : out.size ≤ room := by
   obtain ⟨x, hx, hs⟩ := decodeAllLoop_ok _ _ _ _ _ _ _ h
   rw [hx]; simpa using hs
 
 /-- `target_too_small`: when the target cannot take everything a frame produced, the call fails — a
 frame is only ever reported done when it is finished AND drained completely into the target -/
-theorem target_too_small (fuel : Nat) (d d1 : Decoder) (s s1 : Src) (room : Nat) (out : Array Nat) (fin : Bool)
+theorem target_too_small (fuel : Nat) (d d1 : Decoder σ) (s s1 : Src) (room : Nat) (out : Array Nat) (fin : Bool)
     (hb : d.decodeBlocks s (.uptoBytes (1024 * 1024)) = (d1, .ok (s1, fin)))
     (hc : (d1.read room).1.canCollect ≠ 0) :
     decodeAllFrame (fuel + 1) d s room out = ((d1.read room).1, .err .targetTooSmall) := by
   rw [decodeAllFrame, hb]
   simp only [hc, ne_eq, not_false_eq_true, if_true]
 
-theorem no_silent_truncation (d d' : Decoder) (s s' : Src) (room room' : Nat) (out out' : Array Nat)
+theorem no_silent_truncation (d d' : Decoder σ) (s s' : Src) (room room' : Nat) (out out' : Array Nat)
     (h : decodeAllFrame (s.length + 2) d s room out = (d', .ok (s', room', out'))) :
     d'.isFinished = true ∧ d'.canCollect = 0 ∧ ∃ x, out' = out ++ x ∧ x.size ≤ room ∧ room' = room - x.size := by
   obtain ⟨h1, h2, x, h3, h4, h5, -⟩ := decodeAllFrame_ok _ _ _ _ _ _ _ _ _ (by omega) h
@@ -217,7 +222,7 @@ theorem no_silent_truncation (d d' : Decoder) (s s' : Src) (room room' : Nat) (o
 
 /-- `truncated_skippable`: a skippable frame that claims more bytes than are left is an error
 (`FailedToSkipFrame`), never a silent stop -/
-theorem truncated_skippable (d : Decoder) (s : Src) (room : Nat)
+theorem truncated_skippable (d : Decoder σ) (s : Src) (room : Nat)
     (h8 : 8 ≤ s.length) (hm : Gen.skipMagicLo ≤ leNat (s.take 4) ∧ leNat (s.take 4) ≤ Gen.skipMagicHi)
     (hlen : s.length - 8 < leNat ((s.drop 4).take 4)) :
     d.decodeAll s room = (d, .err .failedToSkipFrame) :=
@@ -225,7 +230,7 @@ theorem truncated_skippable (d : Decoder) (s : Src) (room : Nat)
 
 /-- a complete skippable frame is skipped exactly (8 + length bytes), writes nothing, leaves the
 decoder as it was -/
-theorem skippable_skipped_exactly (fuel : Nat) (d : Decoder) (s : Src) (room : Nat) (out : Array Nat)
+theorem skippable_skipped_exactly (fuel : Nat) (d : Decoder σ) (s : Src) (room : Nat) (out : Array Nat)
     (h8 : 8 ≤ s.length) (hm : Gen.skipMagicLo ≤ leNat (s.take 4) ∧ leNat (s.take 4) ≤ Gen.skipMagicHi)
     (hlen : leNat ((s.drop 4).take 4) ≤ s.length - 8) :
     decodeAllLoop (fuel + 1) d s room out = decodeAllLoop fuel d (s.drop (8 + leNat ((s.drop 4).take 4))) room out :=
@@ -233,7 +238,7 @@ theorem skippable_skipped_exactly (fuel : Nat) (d : Decoder) (s : Src) (room : N
 
 /-- `trailing_garbage`: bytes after the last frame that are shorter than a magic number, or start with
 neither magic number, make `decode_all` fail (at whatever point of the input they are reached) -/
-theorem trailing_garbage (fuel : Nat) (d : Decoder) (s : Src) (room : Nat) (out : Array Nat) (hne : s ≠ [])
+theorem trailing_garbage (fuel : Nat) (d : Decoder σ) (s : Src) (room : Nat) (out : Array Nat) (hne : s ≠ [])
     (h : s.length < 4 ∨ (leNat (s.take 4) ≠ Gen.magicNum ∧
           ¬ (Gen.skipMagicLo ≤ leNat (s.take 4) ∧ leNat (s.take 4) ≤ Gen.skipMagicHi))) :
     decodeAllLoop (fuel + 1) d s room out =
@@ -243,7 +248,7 @@ theorem trailing_garbage (fuel : Nat) (d : Decoder) (s : Src) (room : Nat) (out 
 
 /-- frame boundaries are exact: a frame header / a block / a whole `decode_blocks` run read from
 `s ++ x` behaves exactly as on `s` alone and leaves `x` untouched behind the rest -/
-theorem following_data_untouched (d d' : Decoder) (s rest x : Src) (strat : Strategy) (fin : Bool)
+theorem following_data_untouched (d d' : Decoder σ) (s rest x : Src) (strat : Strategy) (fin : Bool)
     (h : d.decodeBlocks s strat = (d', .ok (rest, fin))) :
     d.decodeBlocks (s ++ x) strat = (d', .ok (rest ++ x, fin)) :=
   Decoder.decodeBlocks_append d d' s rest x strat fin h
@@ -253,7 +258,7 @@ theorem header_following_data_untouched (s x : Src) (h : FHeader) (n : Nat) (res
   readFrameHeader_append s x h n rest hr
 
 /-- leading skippable frames (any number) are transparent to `decode_all` -/
-theorem decodeAll_skips (segs : List (List Nat)) (hs : ∀ seg ∈ segs, IsSkippable seg) (d : Decoder)
+theorem decodeAll_skips (segs : List (List Nat)) (hs : ∀ seg ∈ segs, IsSkippable seg) (d : Decoder σ)
     (rest : Src) (room : Nat) : d.decodeAll (segs.flatten ++ rest) room = d.decodeAll rest room :=
   Decoder.decodeAll_skips segs hs d rest room
 
@@ -264,7 +269,7 @@ frames: magic in range and declared length = actual length), `decode_all` on the
 exactly the concatenation of the contents (hence the exact total), for every target at least that
 large, with the whole input consumed.  Induction over the segment list, not a fixed shape.
 (Tying `Segment.Valid` of a frame to `Spec.decodeFrame` is C01's composition.) -/
-theorem decodeAll_concat (segs : List Segment) (d : Decoder)
+theorem decodeAll_concat (segs : List Segment) (d : Decoder σ)
     (hv : ∀ sg ∈ segs, sg.Valid d.dicts d.maxWindow) (room : Nat) (hroom : (totalContent segs).size ≤ room) :
     ∃ d', d.decodeAll (totalBytes segs) room = (d', .ok (totalContent segs)) :=
   Decoder.decodeAll_concat segs d hv room hroom
@@ -273,23 +278,23 @@ theorem decodeAll_concat (segs : List Segment) (d : Decoder)
 
 /-- `fuel_suffices`, `decode_blocks`: each iteration consumes ≥ 3 source bytes or returns, so any fuel
 above `|s|` gives the same result — the fuel `|s| + 1` in `Decoder.decodeBlocks` is never exhausted -/
-theorem fuel_suffices_decodeBlocks (strat : Strategy) (a c f : Nat) (st : FState) (s : Src) (h : s.length < f) :
+theorem fuel_suffices_decodeBlocks (strat : Strategy) (a c f : Nat) (st : FState σ) (s : Src) (h : s.length < f) :
     decodeBlocksLoop strat a c f st s = decodeBlocksLoop strat a c (s.length + 1) st s :=
   decodeBlocksLoop_fuel strat a c f (s.length + 1) st s h (Nat.lt_succ_self _)
 
-theorem fuel_suffices_decodeFromTo (f : Nat) (st : FState) (s : Src) (h : s.length < f) :
+theorem fuel_suffices_decodeFromTo (f : Nat) (st : FState σ) (s : Src) (h : s.length < f) :
     decodeFromToLoop f st s = decodeFromToLoop (s.length + 1) st s :=
   decodeFromToLoop_fuel f (s.length + 1) st s h (Nat.lt_succ_self _)
 
-theorem fuel_suffices_streamingRead (f : Nat) (d : Decoder) (s : Src) (n : Nat) (h : s.length < f) :
+theorem fuel_suffices_streamingRead (f : Nat) (d : Decoder σ) (s : Src) (n : Nat) (h : s.length < f) :
     streamingFill f d s n = streamingFill (s.length + 2) d s n :=
   streamingFill_fuel f (s.length + 2) d s n h (by omega)
 
-theorem fuel_suffices_decodeAllFrame (f : Nat) (d : Decoder) (s : Src) (room : Nat) (out : Array Nat)
+theorem fuel_suffices_decodeAllFrame (f : Nat) (d : Decoder σ) (s : Src) (room : Nat) (out : Array Nat)
     (h : s.length < f) : decodeAllFrame f d s room out = decodeAllFrame (s.length + 2) d s room out :=
   decodeAllFrame_fuel f (s.length + 2) d s room out h (by omega)
 
-theorem fuel_suffices_decodeAll (f : Nat) (d : Decoder) (s : Src) (room : Nat) (out : Array Nat)
+theorem fuel_suffices_decodeAll (f : Nat) (d : Decoder σ) (s : Src) (room : Nat) (out : Array Nat)
     (h : s.length < f) : decodeAllLoop f d s room out = decodeAllLoop (s.length + 1) d s room out :=
   decodeAllLoop_fuel f (s.length + 1) d s room out h (Nat.lt_succ_self _)
 
@@ -304,23 +309,49 @@ def demoFrame : List Nat := [0x28, 0xB5, 0x2F, 0xFD, 0x24, 3, 0x19, 0, 0, 97, 98
 def demoSkip : List Nat := [0x50, 0x2A, 0x4D, 0x18, 2, 0, 0, 0, 7, 7]
 
 /-- the hypotheses of `decodeBlocks_prefix` are satisfiable: the demo frame decodes to the end … -/
-example : ((({} : Decoder).reset demoFrame).1.decodeBlocks (demoFrame.drop 6) .all).2.isOk = true := by decide +kernel
+example : ((({} : DecA).reset demoFrame).1.decodeBlocks (demoFrame.drop 6) .all).2.isOk = true := by decide +kernel
 /-- … and cut after 11 of its 16 bytes the body read fails, cut after 14 the checksum read fails -/
-example : (((({} : Decoder).reset demoFrame).1.decodeBlocks ((demoFrame.drop 6).take 5) .all).2.isOk) = false := by
+example : (((({} : DecA).reset demoFrame).1.decodeBlocks ((demoFrame.drop 6).take 5) .all).2.isOk) = false := by
   decide +kernel
-example : (((({} : Decoder).reset demoFrame).1.decodeBlocks ((demoFrame.drop 6).take 8) .all).1.isFinished) = false := by
+example : (((({} : DecA).reset demoFrame).1.decodeBlocks ((demoFrame.drop 6).take 8) .all).1.isFinished) = false := by
   decide +kernel
 /-- frame, skippable frame, frame: concatenated contents -/
-example : ((({} : Decoder).decodeAll (demoFrame ++ demoSkip ++ demoFrame) 6).2.delivered id) = #[97, 98, 99, 97, 98, 99] := by
+example : ((({} : DecA).decodeAll (demoFrame ++ demoSkip ++ demoFrame) 6).2.delivered id) = #[97, 98, 99, 97, 98, 99] := by
   decide +kernel
 /-- `Segment.Valid` is satisfiable for both kinds of segment -/
-example : (Segment.skip demoSkip).Valid [] Gen.defaultMaxWindowSize :=
+example : (Segment.skip demoSkip).Valid ([] : List (Dict Spec.Entropy)) Gen.defaultMaxWindowSize :=
   Segment.valid_of_validB _ _ _ (by decide +kernel)
-example : (Segment.frame demoFrame #[97, 98, 99]).Valid [] Gen.defaultMaxWindowSize :=
+example : (Segment.frame demoFrame #[97, 98, 99]).Valid ([] : List (Dict Spec.Entropy)) Gen.defaultMaxWindowSize :=
   Segment.valid_of_validB _ _ _ (by decide +kernel)
 /-- target one byte too small / truncated skippable frame / trailing garbage: errors -/
-example : ((({} : Decoder).decodeAll (demoFrame ++ demoSkip ++ demoFrame) 5).2.isOk) = false := by decide +kernel
-example : ((({} : Decoder).decodeAll (demoFrame ++ demoSkip.take 9) 6).2.isOk) = false := by decide +kernel
-example : ((({} : Decoder).decodeAll (demoFrame ++ [0]) 6).2.isOk) = false := by decide +kernel
+example : ((({} : DecA).decodeAll (demoFrame ++ demoSkip ++ demoFrame) 5).2.isOk) = false := by decide +kernel
+example : ((({} : DecA).decodeAll (demoFrame ++ demoSkip.take 9) 6).2.isOk) = false := by decide +kernel
+example : ((({} : DecA).decodeAll (demoFrame ++ [0]) 6).2.isOk) = false := by decide +kernel
+
+
+/-! ### instance B: the decoder the drivers run (faithful block decoder, Model/FrameFaithful.lean) -/
+
+theorem frame_consumed_exact_faithful (d d0 d' : DecB) (s s1 rest : Src) (strat : Strategy) (fin : Bool)
+    (hr : d.reset s = (d0, .ok s1)) (h : d0.decodeBlocks s1 strat = (d', .ok (rest, fin))) :
+    rest = s.drop d'.bytesRead ∧ d'.bytesRead ≤ s.length :=
+  frame_consumed_exact d d0 d' s s1 rest strat fin hr h
+
+theorem no_silent_truncation_faithful (d d' : DecB) (s s' : Src) (room room' : Nat) (out out' : Array Nat)
+    (h : decodeAllFrame (s.length + 2) d s room out = (d', .ok (s', room', out'))) :
+    d'.isFinished = true ∧ d'.canCollect = 0 ∧ ∃ x, out' = out ++ x ∧ x.size ≤ room ∧ room' = room - x.size :=
+  no_silent_truncation d d' s s' room room' out out' h
+
+/-- `valid_frame_prefix_errors` for the faithful decoder (no hypotheses: `instRefinesSpecFaithful`) -/
+theorem valid_frame_prefix_errors_faithful (d : DecB) (sdicts : List Spec.Dict)
+    (hdc : DictsCoupled d.dicts sdicts) (f : List Nat) (hb : ∀ x ∈ f, x < 256) (r : Spec.FrameResult)
+    (hs : Spec.decodeFrame f sdicts = some r) (hlim : r.header.window ≤ d.maxWindow)
+    (k : Nat) (hk : k < r.consumed) :
+    ∃ d0 rest, d.reset f = (d0, .ok rest) ∧
+      (d0.bytesRead ≤ k →
+        d.reset (f.take k) = (d0, .ok (rest.take (k - d0.bytesRead))) ∧
+        ∃ d'' e, d0.decodeBlocks (rest.take (k - d0.bytesRead)) .all = (d'', .err e) ∧
+          (e = .blockHeaderRead ∨ e = .blockBodyRead ∨ e = .checksumRead) ∧ d''.isFinished = false ∧
+          d''.bytesRead ≤ k ∧ ∃ tail, r.content = (d''.content ++ tail).toList) :=
+  valid_frame_prefix_errors d sdicts hdc f hb r hs hlim k hk
 
 end Zstd.Props.C10
